@@ -256,7 +256,9 @@ def check_case(case: dict) -> Outcome:
                     present = all(q in base[1] for q in own)
                     if exp[title] and not present:
                         out.fail("C09:missing-output:correlation", f"correlation rule {title} must emit its query but output is {base[1]}")
-                    if not exp[title] and present:
+                    # the same text may legitimately come from another correlation rule that does emit
+                    twins = [q for t, qs in base[2].items() if t != title and exp.get(t) for q in qs]
+                    if not exp[title] and present and not all(q in twins for q in own):
                         out.fail("C09:unexpected-output:correlation", f"correlation rule {title} is referenced only without generate but emits {own}")
     finally:
         if tmpdir:
